@@ -534,7 +534,7 @@ class SiteCoordHistorySsc(SiteInfoHistoryBase):
         }
         """
         history = dict()
-        pos_vel = raw_info.pop("pos_vel")
+        pos_vel = raw_info["pos_vel"]
         for site_coord_info in pos_vel.values():
             site_coord = SiteCoordSsc(self.station, site_coord_info)
             interval = (site_coord.date_from, site_coord.date_to)
